@@ -63,18 +63,21 @@ def Seq.init (maxMsg nmsgs : Nat) : Seq :=
   { buf := List.replicate (maxMsg * nmsgs) 0, w := 0, r := 0, la := 0,
     size := maxMsg * nmsgs, maxMsg := maxMsg, rbuf := List.replicate maxMsg 0, fault := false }
 
+/-- the copies of `ring_write` (thread-link.cpp:47-55): one `memcpy`, or two when the
+    message wraps around the end of the buffer -/
+def copyIn (buf : Bytes) (size w : Nat) (data : Bytes) : Bytes × Bool :=
+  let next := (w + data.length) % size
+  if next < w then                         -- discontinuous write
+    let w1 := size - w
+    let (b1, ok1) := blit buf w (data.take w1)
+    let (b2, ok2) := blit b1 0 (data.drop w1)
+    (b2, ok1 && ok2)
+  else blit buf w data
+
 /-- `ring_write` (thread-link.cpp:42) -/
 def Seq.ringWrite (s : Seq) (data : Bytes) : Seq :=
-  let len := data.length
-  let next := (s.w + len) % s.size
-  if next < s.w then                       -- discontinuous write
-    let w1 := s.size - s.w
-    let (b1, ok1) := blit s.buf s.w (data.take w1)
-    let (b2, ok2) := blit b1 0 (data.drop w1)
-    { s with buf := b2, w := next, fault := s.fault || !ok1 || !ok2 }
-  else
-    let (b, ok) := blit s.buf s.w data
-    { s with buf := b, w := next, fault := s.fault || !ok }
+  let (b, ok) := copyIn s.buf s.size s.w data
+  { s with buf := b, w := (s.w + data.length) % s.size, fault := s.fault || !ok }
 
 /-- `ThreadLink::write` / `writeArray` once the arguments are encoded: `m` is the
     encoding; `rtosc_vmessage(write_buffer, MaxMsg, …)` yields 0 when it does not fit. -/
@@ -91,23 +94,27 @@ def Seq.rawWrite (frame : Bytes → Nat) (s : Seq) (blk : Bytes) : Seq :=
 def Seq.hasNext (s : Seq) (lookahead : Bool) : Bool :=
   readSize s.w (if lookahead then s.la else s.r) s.size ≠ 0
 
+/-- the copies of `ring_read` (thread-link.cpp:64-72) into `read_buffer` -/
+def copyOut (buf rbuf : Bytes) (size read len : Nat) : Bytes × Bool :=
+  let next := (read + len) % size
+  if next < read then                      -- discontinuous read
+    let r1 := size - read
+    let r2 := len - r1
+    let (c1, ok1) := slice buf read r1
+    let (c2, ok2) := slice buf 0 r2
+    let (rb1, ok3) := blit rbuf 0 c1
+    let (rb2, ok4) := blit rb1 r1 c2
+    (rb2, ok1 && ok2 && ok3 && ok4)
+  else
+    let (c, ok1) := slice buf read len
+    let (rb, ok2) := blit rbuf 0 c
+    (rb, ok1 && ok2)
+
 /-- `ring_read` (thread-link.cpp:58) -/
 def Seq.ringRead (s : Seq) (len : Nat) (lookahead : Bool) : Seq :=
   let read := if lookahead then s.la else s.r
   let next := (read + len) % s.size
-  let (rb, ok) :=
-    if next < read then                    -- discontinuous read
-      let r1 := s.size - read
-      let r2 := len - r1
-      let (c1, ok1) := slice s.buf read r1
-      let (c2, ok2) := slice s.buf 0 r2
-      let (rb1, ok3) := blit s.rbuf 0 c1
-      let (rb2, ok4) := blit rb1 r1 c2
-      (rb2, ok1 && ok2 && ok3 && ok4)
-    else
-      let (c, ok1) := slice s.buf read len
-      let (rb, ok2) := blit s.rbuf 0 c
-      (rb, ok1 && ok2)
+  let (rb, ok) := copyOut s.buf s.rbuf s.size read len
   if lookahead then { s with rbuf := rb, la := next, fault := s.fault || !ok }
   else { s with rbuf := rb, r := next, la := next, fault := s.fault || !ok }
 
